@@ -385,4 +385,49 @@ def wrapPolicyAllows (path op : String) : Bool :=
   (path == "cubbyhole/response" && (op == "read" || op == "create")) ||
   (path == "sys/wrapping/unwrap" && op == "update")
 
+/-! ### The wrapping information record through rewrap generations (C18: "lookup reports the path that created it")
+
+`wrapInCubbyhole` (wrapping.go): the new token's `te.Path` is the path of the CURRENT request; the response's
+`wrap_info.creation_path` is that path unless the request is `sys/wrapping/rewrap`, in which case the value the rewrap
+handler put there (the old token's stored `creation_path`) is kept; `cubbyhole/wrapinfo` stores `creation_ttl =
+resp.WrapInfo.TTL`, `creation_time = now` and `creation_path` = request path, or — for a rewrap — the carried value.
+`handleWrappingRewrap` answers `WrapInfo{TTL: stored creation_ttl, CreationPath: stored creation_path}`.
+`handleWrappingLookup` reports the stored record. A first-party rewrap (token as client token) is denied by the
+`response-wrapping` policy after the use step: the token is consumed and nothing new is issued. -/
+
+def rewrapPath : String := "sys/wrapping/rewrap"
+
+structure WInfo where
+  path : String
+  ttl  : Nat       -- seconds
+deriving DecidableEq, Repr
+
+/-- a live wrapping token of a chain -/
+structure WToken where
+  tePath : String    -- te.Path: request that created THIS token
+  stored : WInfo     -- cubbyhole/wrapinfo (creation_time is always "now": fresh for every generation)
+  handed : WInfo     -- wrap_info of the response that handed the token out
+deriving DecidableEq, Repr
+
+/-- `wrapInCubbyhole` for request path `reqPath` and the `WrapInfo` the response carries into it -/
+def wrapIn (reqPath : String) (respInfo : WInfo) : WToken :=
+  let cp := if reqPath ≠ rewrapPath then reqPath else respInfo.path
+  { tePath := reqPath, stored := { path := cp, ttl := respInfo.ttl }, handed := { path := cp, ttl := respInfo.ttl } }
+
+/-- wrapping the response of an ordinary request with the requested TTL -/
+def wrapFirst (reqPath : String) (ttl : Nat) : WToken := wrapIn reqPath { path := "", ttl := ttl }
+
+/-- third-party rewrap of a live token -/
+def rewrapTok (old : WToken) : WToken := wrapIn rewrapPath { path := old.stored.path, ttl := old.stored.ttl }
+
+def lookupInfo (t : WToken) : WInfo := t.stored
+
+/-- a history of rewraps (`true` = third party, `false` = first party: denied, the token is consumed) applied to the
+live token of the chain; `none` = no live token left -/
+def rewrapHistory : List Bool → Option WToken → Option WToken
+  | [], t => t
+  | _ :: rest, none => rewrapHistory rest none
+  | true :: rest, some t => rewrapHistory rest (some (rewrapTok t))
+  | false :: rest, some _ => rewrapHistory rest none
+
 end Obao.UseCount
